@@ -19,9 +19,9 @@ func init() {
 		[]string{"Go map equality of the dedup key struct (content, string type)", "scheme argument of DESIGN §4 C06"},
 		"C06.a", "C06.b", "C06.c", "C06.d", "C06.e", "C12.a", "C20.d", "C09.b", "C10.f", "C19.f")
 
-	register(&Rule{ID: "C06.a", Doc: "inline arms record (command, argument index, script, content) and leave a placeholder", Floor: 4, Run: c06a})
+	register(&Rule{ID: "C06.a", Doc: "inline arms record (command, argument index, script, content) and leave a placeholder", Floor: 10, Run: c06a})
 	register(&Rule{ID: "C06.b", Doc: "patch-and-define protocol of addImplicitTexts / addImplicitMovements", Floor: 14, Run: c06b})
-	register(&Rule{ID: "C06.c", Doc: "every *impData produced reaches the returned value / the program (must-consume)", Floor: 30, Run: c06c})
+	register(&Rule{ID: "C06.c", Doc: "every *impData produced reaches the returned value / the program (must-consume)", Floor: 48, Run: c06c})
 	register(&Rule{ID: "C06.d", Doc: "generated label formats <script>_Text_<n> / <script>_Movement_<n>", Floor: 2, Run: c06d})
 	register(&Rule{ID: "C06.e", Doc: "all program texts emitted; hoisted movements dispatched", Floor: 3, Run: c06e})
 }
